@@ -318,6 +318,8 @@ func stmtLabel(sql string) string {
 		return "ik"
 	case strings.HasPrefix(q, `with "ins" as (insert into`) && has("accounts_volumes") && has("for update"):
 		return "bal"
+	case strings.HasPrefix(q, "select") && has("accounts_volumes") && has("for update"):
+		return "bal2" // GetBalances, second statement: rows that did not exist when the first one started
 	case strings.HasPrefix(q, "insert into") && has("accounts_volumes") && has("do update set input"):
 		return "vol"
 	case strings.HasPrefix(q, "insert into") && has(".transactions ("):
